@@ -503,3 +503,110 @@ def _descendant_failed(st, nid):
         if oc is not None and oc[0] == "fail":
             return True
     return False
+
+
+# ---------------------------------------------------------------------------------------------------------------------
+# join_all_threads on a batch with a time limit (monitor only: the Lean model has no timed join_all)
+# ---------------------------------------------------------------------------------------------------------------------
+def gen_batch(rng):
+    n = rng.randint(2, 5)
+    kinds = [rng.choice(["ok", "ok", "fail", "slow", "late"]) for _ in range(n)]
+    return {"batch": kinds, "till": rng.choice([None, 0.2, 0.2, 0.5]), "values": [rng.randrange(len(VALUES)) for _ in range(n)]}
+
+
+def batch_shape(sc):
+    return "batch:" + "".join(k[0] for k in sc["batch"]) + ":t%s" % sc["till"]
+
+
+def run_batch_scenario(sc, chooser=None, seed=0, max_steps=40000):
+    """main starts the batch, joins it with join_all_threads(batch, till); `slow` threads outlive the limit"""
+    ds.install()
+    ds.reset_globals()
+    from mo_threads import threads, till as tillmod
+    sched = ds.Sched(chooser=chooser, seed=seed, max_steps=max_steps, horizon=6.0)
+    viol = []
+    st = {}
+    orig_shim_start = ds.ShimThread.start
+
+    def shim_start(self):
+        if self.name == TIMERS:
+            self._verif_background = True
+            self._verif_timekeeper = True
+        return orig_shim_start(self)
+    ds.ShimThread.start = shim_start
+
+    def target(i, kind):
+        def run(please_stop):
+            if kind == "ok":
+                return VALUES[sc["values"][i]]
+            if kind == "fail":
+                raise TargetFailure("node %d fails" % i)
+            if kind == "late":
+                tillmod.Till(seconds=0.1).wait()
+                return VALUES[sc["values"][i]]
+            (please_stop | tillmod.Till(seconds=3.0)).wait()      # slow: outlives the limit unless told to stop
+            return VALUES[sc["values"][i]]
+        return run
+
+    def main_body():
+        threads.start_main_thread()
+        kids = [threads.Thread.run("b%d" % i, target(i, k)) for i, k in enumerate(sc["batch"])]
+        lim = tillmod.Till(seconds=sc["till"]) if sc["till"] is not None else None
+        if sc["till"] is None:
+            for i, k in enumerate(sc["batch"]):
+                if k == "slow":
+                    kids[i].stop()
+        try:
+            res = threads.join_all_threads(kids, till=lim)
+            st["res"] = ("ret", res)
+        except ds.SchedAbort:
+            raise
+        except BaseException as e:   # noqa
+            st["res"] = ("raise", e)
+        st["stopped_after"] = [bool(k.stopped) for k in kids]
+        st["registered_after"] = [k in threads.MAIN_THREAD.children for k in kids]
+        for k in kids:
+            k.stop()
+        try:
+            threads.MAIN_THREAD.stop()
+        except ds.SchedAbort:
+            raise
+        except BaseException:   # noqa
+            pass
+
+    sched.spawn("main", main_body)
+    ds._shim_main.name = "MainThread"
+    try:
+        outcome = sched.run()
+    finally:
+        ds.ShimThread.start = orig_shim_start
+    if "res" not in st:
+        viol.append("C12: join_all_threads did not come back (%s)" % outcome)
+    else:
+        kind, val = st["res"]
+        failed = [i for i, k in enumerate(sc["batch"]) if k == "fail"]
+        for i, k in enumerate(sc["batch"]):
+            # a thread that has stopped by the end of the call must have been joined (a joined thread leaves its parent)
+            if st["stopped_after"][i] and k in ("ok", "fail") and st["registered_after"][i]:
+                viol.append("C12: join_all_threads came back but never joined b%d (%s), which had finished long before" % (i, k))
+        if kind == "ret":
+            if failed:
+                viol.append("C12: join_all_threads returned normally although b%s failed" % failed)
+            for i, k in enumerate(sc["batch"]):
+                if k in ("ok", "late", "slow") and st["stopped_after"][i]:
+                    r = val[i]
+                    want = VALUES[sc["values"][i]]
+                    if not (type(r) is type(want) and r == want):
+                        viol.append("C12: join_all_threads returned %r at position %d, b%d returned %r" % (r, i, i, want))
+        else:
+            ch = _chain(val)
+            for i in failed:
+                if ("node %d fails" % i) not in ch:
+                    viol.append("C12: join_all_threads raised but does not report the failure of b%d: %s" % (i, ch[:160]))
+            if not failed and sc["till"] is None:
+                viol.append("C12: join_all_threads raised although no thread failed and there was no time limit: %s" % ch[:160])
+    for vt in sched.vts:
+        if vt.exc is not None and not isinstance(vt.exc, TargetFailure):
+            viol.append("unexpected exception in %s: %r" % (vt.name, vt.exc))
+    return {"lines": [], "outcome": outcome, "monitor": sorted(set(viol)), "choices": list(sched.choices), "steps": sched.steps,
+            "switches": sched.context_switches, "stuck": [vt.name for vt in sched.stuck]}
